@@ -287,6 +287,10 @@ fn conv_pairs() -> Vec<Pair> {
         pair!(OwnZ4, OwnZ4b),
         pair!(Own8, Own4),
         pair!(Own12, Own12b),
+        // only one side has drop glue
+        pair!(Pod8, OwnBox),
+        pair!(OwnBox, Pod8),
+        pair!(PodZ, OwnZ),
     ]
 }
 
@@ -809,6 +813,7 @@ fn main() {
     let (pairs, cases, max_n) = space_for(&prop, args.tier);
 
     if let Some(spec) = &args.child {
+        vcommon::brief_panics();
         let prop2 = prop.clone();
         vcommon::child_loop(spec, cases.len(), |idx| {
             let c = &cases[idx];
